@@ -282,7 +282,8 @@ def parse_line(line, infofields, formatfields, samples, ploidy, snv_offsets, ref
 # ------------------------------------------------------------------ assemble lines
 
 
-def _run_asm_line(c, col):
+def _asm_driver(c):
+    """(body, infofields, formatfields, samples, scenario): body(ctx) -> (formatted assemble record, threshold, data)"""
     from checks import c13
 
     asm = E.load("mchap.application.assemble")
@@ -347,6 +348,12 @@ def _run_asm_line(c, col):
         prog.sumarise_vcf_record(data)
         return data.format_vcf_record(), thr, data
 
+    return body, infof, fmtf, samples, scen
+
+
+def _run_asm_line(c, col):
+    body, infof, fmtf, samples, scen = _asm_driver(c)
+    site = "mchap.application.baseclass.LocusAssemblyData.format_vcf_record"
     first = True
     for pr in E.explore(body, stats=col.stats):
         if pr.exc is not None:
